@@ -146,6 +146,9 @@ func (c *cluster) onWireMsg(m *streamMon, w *wireMsg) {
 			if lastIdx > l.ackedIdx[dst.id] {
 				l.ackedIdx[dst.id] = lastIdx
 			}
+			if len(w.reqMsg.entries) > 0 {
+				l.raiseFloor(dst.id, lastIdx)
+			}
 			if len(w.reqMsg.entries) > 0 && dst.dir != "" {
 				c.stats.class("wire-append-ack")
 				_, dlast, ok := durableLog(dst.dir)
